@@ -31,7 +31,8 @@ def qvec(nodes, labels, lab, exporters=True):
         v["nav"] = _safe(lambda: (seq(nd.path), seq(nd.ancestors), lab(nd.root), nd.depth, nd.is_root, nd.is_leaf, seq(nd.siblings),
                                   seq(nd.descendants), seq(nd.leaves), nd.size, nd.height))
         v["util"] = _safe(lambda: (lab(util.leftsibling(nd)), lab(util.rightsibling(nd)),
-                                   [seq(util.commonancestors(nd, o)) for o in nodes], seq(util.commonancestors(nd, nd, nodes[0]))))
+                                   [seq(util.commonancestors(nd, o)) for o in nodes], seq(util.commonancestors(nd, nd, nodes[0])),
+                                   seq(util.commonancestors(nd)), seq(util.commonancestors())))
         v["iter"] = _safe(lambda: [seq(c(nd)) for c in its] + [[seq(g) for g in c(nd)] for c in gits])
         v["iter_r"] = _safe(lambda: [seq(c(nd, filter_=hide_a, stop=stop_b, maxlevel=2)) for c in its] +
                             [[seq(g) for g in c(nd, filter_=hide_a, stop=stop_b, maxlevel=2)] for c in gits])
@@ -41,6 +42,8 @@ def qvec(nodes, labels, lab, exporters=True):
                                      _safe(lambda: seq(anytree.findall(nd, mincount=2)))))
         v["render"] = _safe(lambda: ([(r.pre, r.fill, lab(r.node)) for r in anytree.RenderTree(nd, style=anytree.AsciiStyle())],
                                      anytree.RenderTree(nd).by_attr("name"),
+                                     anytree.RenderTree(nd).by_attr(lambda n: n), anytree.RenderTree(nd).by_attr("parent"),
+                                     str(anytree.RenderTree(nd, maxlevel=2)),
                                      [(r.pre, lab(r.node)) for r in anytree.RenderTree(nd, childiter=reversed, maxlevel=2)]))
         paths = ["", ".", "..", "a", "b", "c", "d", "a/b", "../a", "/a", "/b/c", "/" + l, "../..", "x"]
         v["get"] = [_safe(lambda p=p: lab(res.get(nd, p))) for p in paths]
